@@ -378,6 +378,8 @@ func runC12(c *Ctx) {
 				nm := fnName(site.Parent())
 				c.check(nm == "(*File).Close" || nm == "(*Client).ReadDirContext", "R3", "caller of Client.close: "+nm, pos(site), "CLOSE is sent by File.Close and by ReadDir's own directory handle only", "CLOSE is sent from an unexpected place")
 			}
+		} else {
+			c.missing("R3", "(*Client).close")
 		}
 	}
 
@@ -1154,6 +1156,8 @@ func checkOffsetStores(c *Ctx, rule string, only map[string]bool) {
 				c.check(onErr != isAdd, rule, "readFromWithConcurrency offset store path", pos(a.In), "error path sets the error position, success path adds the bytes read", "the offset update is on the wrong side of the error test")
 			}
 		}
+	} else {
+		c.missing(rule, "(*File).readFromWithConcurrency")
 	}
 
 }
@@ -1269,7 +1273,6 @@ func checkSequentialEOFSource(c *Ctx, rule string) {
 	c.check(made == "", rule, "readChunkAt reports EOF only as told by the server", p.Pos(fn.Pos()), "no return of the io.EOF sentinel itself",
 		"readChunkAt returns io.EOF of its own making (at "+made+"), e.g. after a short DATA reply: Read/ReadAt/sequential WriteTo then report end of file (or success) in the middle of a file, and the status the server would have given for the remainder is never seen")
 }
-
 
 // checkReducers (C13.R1/R2/R6; the readAt part is shared with C12 as R9): the map/reduce transfers keep the error at the
 // lowest offset, count the prefix before it, and return a nil error only with the full length.
